@@ -60,7 +60,9 @@ def opt_case(task):
         files['keep'] = (b'k\n', 0o644)
         want = {'keep': (b'k\n', 0o644)}
     line = ('p1.patch ' + spelling).rstrip()
-    lines = {'plain': [line], 'comments': ['# a comment', line, '#p9.patch -p7'], 'blank': ['', line, ''], 'spaces': ['   ', '\t', line, '  \t '], 'indented': ['  ' + line.replace(' ', '\t', 1) + '  ']}[decor]
+    lines = {'plain': [line], 'comments': ['# a comment', line, '#p9.patch -p7'], 'blank': ['', line, ''], 'spaces': ['   ', '\t', line, '  \t '], 'indented': ['  ' + line.replace(' ', '\t', 1) + '  '],
+             # quilt cuts a series line at a '#' that follows whitespace: whatever the remark says, it is no option
+             'trailing-comment': [line + ' # a remark'], 'trailing-comment-options': [line + '\t# was -p7 before; do not use -R --bogus'], 'trailing-comment-hash': [line + ' #-R']}[decor]
     ws.make_ws(root, files, {'p1.patch': text}, lines)
     o = ws.run_rq(root, ['-a', '-q', '--backup', 'never'], threads=threads, trace=os.path.join(d, 'trace'))
     snap = ws.snapshot(root)
@@ -73,6 +75,33 @@ def opt_case(task):
         mode = o.cls if o.cls not in ('0', '1') else ('option-not-honoured:exit-%s' % o.cls)
         out['violations'].append((tags, mode, w({'expected': 'patch applied with -p%d%s: %s' % (strip, ' reversed' if rev else '', sorted(want)), 'observed': 'exit %s, tree %r' % (o.cls, {k: common.b2s(v[0]) for k, v in got.items()}),
                                                 'stderr': common.b2s(o.err[-300:])})))
+    return out
+
+
+BAD_STRIPS = ['-pfoo', '-p2R', '-p 1x', '--strip=-2', '--strip=1.5', '-p99999999999999999999', '-p18446744073709551616', '-p-1', '-R -pX']
+
+
+def bad_strip_case(task):
+    """a strip count that is no number: there is no -pN to honour, the push is refused and nothing is touched"""
+    spelling, threads, pos = task
+    d = wsweep.wdir()
+    root = os.path.join(d, 'ws')
+    # names with two leading components and files at every level: whatever count the tool might fall back to, it would hit a file
+    files = {'file': (BODY, 0o644), 'b/file': (BODY, 0o644), 'a/b/file': (BODY, 0o644), 'g': (b'g0\ng1\n', 0o644)}
+    text = b'--- a/b/file\n+++ a/b/file\n@@ -1,4 +1,4 @@\n l0\n-l1\n+CHANGED\n l2\n l3\n'
+    good = b'--- a/g\n+++ b/g\n@@ -1,2 +1,2 @@\n-g0\n+G0\n g1\n'
+    lines = ['p1.patch ' + spelling, 'good.patch'] if pos == 0 else ['good.patch', 'p1.patch ' + spelling]
+    ws.make_ws(root, files, {'p1.patch': text, 'good.patch': good}, lines)
+    before = ws.snapshot(root)
+    o = ws.run_rq(root, ['-a', '-q', '--backup', 'never'], threads=threads, trace=os.path.join(d, 'trace'))
+    after = ws.snapshot(root)
+    out = {'evals': 1, 'violations': [], 'outcomes': {'bad-strip:exit-' + o.cls: 1}, 'nontrivial': 1}
+    tags = wsweep.cls({'strip-count-is-not-a-number', 'spelling:' + spelling})
+    w = lambda extra: dict({'kind': 'cli', 'files': {k: [common.b2s(v[0]), v[1]] for k, v in files.items()}, 'patches': {'p1.patch': common.b2s(text), 'good.patch': common.b2s(good)}, 'series': lines,
+                            'args': ['-a', '-q', '--backup', 'never'], 'threads': threads, 'series_desc': 'series line %r' % lines[pos]}, **extra)
+    if o.cls != '1' or before != after:
+        changed = sorted(p for p in set(before) | set(after) if before.get(p) != after.get(p))
+        out['violations'].append((tags, o.cls if o.cls not in ('0', '1') else 'applied-with-some-other-strip-count', w({'expected': 'exit 1, nothing touched', 'observed': 'exit %s, changed: %r' % (o.cls, changed), 'stderr': common.b2s(o.err[-300:])})))
     return out
 
 
@@ -174,7 +203,7 @@ def run(tier, seed):
     for strip in (0, 1, 2):
         for rev in (False, True):
             for sp in spellings(strip, rev):
-                for decor in ('plain', 'comments', 'blank', 'spaces', 'indented'):
+                for decor in ('plain', 'comments', 'blank', 'spaces', 'indented', 'trailing-comment', 'trailing-comment-options', 'trailing-comment-hash'):
                     for depth in (1, 2, 3):
                         if tier == 'quick' and decor != 'plain' and depth != 2:
                             continue
@@ -192,6 +221,10 @@ def run(tier, seed):
             r['sample'] = {'strip': tasks[i][0], 'reverse': tasks[i][1], 'spelling': tasks[i][2], 'path_depth': tasks[i][3], 'series_file': tasks[i][4]}
         acc.add(r)
     acc.finish('option_spellings')
+    acc3 = wsweep.Acc(res)
+    for r in wsweep.pmap(bad_strip_case, [(sp, t, pos) for sp in BAD_STRIPS for t in (1, 2) for pos in (0, 1)]):
+        acc3.add(r)
+    acc3.finish('strip_counts_that_are_no_numbers')
     tasks2 = [(so, sn, kind, split, threads) for so in STATES for sn in STATES for kind in ('modify', 'create', 'delete') for split in (False, True) for threads in (1, 2)]
     acc2 = wsweep.Acc(res)
     for i, r in enumerate(wsweep.pmap(name_case, tasks2)):
@@ -202,8 +235,8 @@ def run(tier, seed):
     acc2.finish('existence_matrix')
     cov = res.coverage
     cov['rule'] = ('(1) series lines: every spelling getopts accepts for -p0/-p1/-p2 (-pN, -p N, --strip=N, --strip N) alone and with -R/--reverse in either order, clustered -RpN, default -p1; between comment, '
-                   'blank, whitespace-only lines, indented/tab-separated; target path depth 1..3; header forms where both / only the old / only the new name decide (same names, .orig-style, /dev/null on either side) x -p0..-p3; the patch names carry exactly N extra components and -R entries carry the inverse diff, so only the right '
+                   'blank, whitespace-only lines, indented/tab-separated, followed by a trailing comment (also one that mentions options); strip counts that are no numbers (%s) are refused with nothing touched; target path depth 1..3; header forms where both / only the old / only the new name decide (same names, .orig-style, /dev/null on either side) x -p0..-p3; the patch names carry exactly N extra components and -R entries carry the inverse diff, so only the right '
                    'strip level and direction produce the expected tree. (2) existence matrix: old name x new name each in {on disk, created earlier this run, deleted earlier, renamed away, absent} x '
                    'kind {modify, create, delete} x {one push, split pushes} x threads {1,2}; both files hold the same lines, so the hunk fits either and the tree shows which name was patched. Oracle: toy '
-                   'quilt rule - the old name if it currently exists, otherwise the new name. non-trivial = all matrix runs and non-default option runs')
+                   'quilt rule - the old name if it currently exists, otherwise the new name. non-trivial = all matrix runs and non-default option runs') % ', '.join(BAD_STRIPS)
     return res
